@@ -347,7 +347,10 @@ func (st *programState) runSaveStatement(saveStatement parser.SaveStatement) ([]
 	balance := st.getCachedBalance(*account, *asset)
 
 	if amt == nil {
-		balance.Set(big.NewInt(0))
+		// a balance that is already negative is not raised by a save
+		if balance.Sign() == 1 {
+			balance.Set(big.NewInt(0))
+		}
 	} else {
 		// Do not allow negative saves
 		if amt.Cmp(big.NewInt(0)) == -1 {
@@ -357,11 +360,13 @@ func (st *programState) runSaveStatement(saveStatement parser.SaveStatement) ([]
 			}
 		}
 
-		// we decrease the balance by "amt"
-		balance.Sub(balance, amt)
-		// without going under 0
-		if balance.Cmp(big.NewInt(0)) == -1 {
-			balance.Set(big.NewInt(0))
+		// we decrease the balance by "amt", without going under 0
+		// (a balance that is already negative is left as it is)
+		if balance.Sign() == 1 {
+			balance.Sub(balance, amt)
+			if balance.Cmp(big.NewInt(0)) == -1 {
+				balance.Set(big.NewInt(0))
+			}
 		}
 	}
 
